@@ -648,6 +648,59 @@ def malformed(ctx):
             ctx.malformed_outcome('model-text:%r:err' % text)
 
 
+def late_plugin_priors(ctx):
+    """priors are "expandable with new ones implemented through plugins or custom code": a Prior subclass registered with
+    the class factory AFTER prior strings have already been parsed in this session is found by its text form, and the built
+    object is the one direct construction gives"""
+    import types
+    from taurex.core.priors import Prior, PriorMode
+    from taurex.parameter.factory import create_prior
+    from taurex.parameter.classfactory import ClassFactory
+
+    class Triangular(Prior):
+        def __init__(self, bounds=[0.0, 1.0]):
+            super().__init__()
+            self._low, self._up = min(*bounds), max(*bounds)
+
+        def sample(self, x):
+            w = self._up - self._low
+            return self._low + w * math.sqrt(x / 2.0) if x < 0.5 else self._up - w * math.sqrt((1.0 - x) / 2.0)
+
+        def params(self):
+            return 'Bounds = [%s,%s]' % (self._low, self._up)
+
+        def boundaries(self):
+            return self._low, self._up
+
+    class LogTriangular(Triangular):
+        def __init__(self, bounds=[0.0, 1.0]):
+            super().__init__(bounds=bounds)
+            self._prior_mode = PriorMode.LOG
+    create_prior('Uniform(bounds=(0.5, 2.0))')          # the session has parsed prior text before the plugin arrives
+    plugin = types.ModuleType('verif_c08_late_priors')
+    plugin.Triangular = Triangular
+    plugin.LogTriangular = LogTriangular
+    ClassFactory().load_plugin(plugin)
+    rng = ctx.rng
+    for cls, name in ((Triangular, 'Triangular'), (LogTriangular, 'LogTriangular'), (Triangular, 'triangular')):
+        a, b = sorted(float(x) for x in rng.uniform(-8, 8, size=2))
+        text = '%s(bounds=(%r, %r))' % (name, a, b)
+        case = dict(type='late-plugin', text=text)
+        ctx.case(key=('late-plugin', name), bucket='text:late-plugin-prior', sample=case)
+        try:
+            made = create_prior(text)
+        except Exception as e:  # noqa
+            ctx.violation('text-late-plugin-rejected', 'the text form of a prior class registered after earlier prior strings '
+                          'were parsed is rejected (%r) although direct construction works' % (e,), case)
+            continue
+        direct = cls(bounds=(a, b))
+        us = [0.0, 0.1, 0.5, 0.9, 1.0]
+        if type(made) is not cls or made.priorMode is not direct.priorMode or \
+                [made.sample(u) for u in us] != [direct.sample(u) for u in us]:
+            ctx.violation('text-late-plugin-differs', 'the text form of a late-registered prior class does not build the object '
+                          'direct construction gives', case, dict(built=type(made).__name__))
+
+
 def run(ctx):
     validate_externals(ctx)
     rng = ctx.rng
@@ -717,6 +770,7 @@ def run(ctx):
         eval_text(ctx, dict(text=text, us=gen_us(rng, 1), xs=[1.0], expect_ok=True, call=call))
         ctx.bucket('text:printed-by-model')
     malformed(ctx)
+    late_plugin_priors(ctx)
 
 
 def replay(ctx, case):
